@@ -219,6 +219,10 @@ inductive Op (α : Type) where
   /-- what `corrupt_data(x[, xe])` hands to `corrupt_concatenated_data`: `np.vstack` of the per-transmitter
       blocks (the interference blocks appended on the ExtInt class) -/
   | stackData (x xe : List (Mat α))
+  /-- any public method that is not a setter and whose value is outside this property (`calc_Q`,
+      `calc_JP_Q`, `calc_SINR`, `calc_JP_SINR`, `calc_cov_matrix_extint_*`, copying / pickling the
+      object): it returns something, and must change nothing -/
+  | query
   deriving Repr
 
 inductive Out (α : Type) where
@@ -483,6 +487,7 @@ def step (cfg : Cfg) (F : Fns α) (st : State α) : Op α → State α × Out α
   | .readLastNoise => (st, .optMat st.lastNoise)
   | .corruptCat X noise => doCorruptCat F st X noise
   | .stackData x xe => (st, .mat (if st.isExt then x ++ xe else x).flatten)
+  | .query => (st, .unit)
 
 /-- run a history; outputs in order -/
 def run (cfg : Cfg) (F : Fns α) : State α → List (Op α) → State α × List (Out α)
